@@ -8,14 +8,25 @@ import (
 	"encoding/hex"
 	"encoding/json"
 	"fmt"
+	"io"
 	"log/slog"
+	"net"
+	"net/http"
+	"os"
 	"reflect"
 	"sort"
 	"strings"
 	"testing"
+	"time"
 
 	"go.uber.org/zap"
 	"go.uber.org/zap/zapcore"
+	"go.uber.org/zap/zaptest/observer"
+	"google.golang.org/grpc"
+	"google.golang.org/grpc/codes"
+	"google.golang.org/grpc/metadata"
+	"google.golang.org/grpc/status"
+	"google.golang.org/protobuf/types/known/emptypb"
 	yaml "sigs.k8s.io/yaml/goyaml.v3"
 
 	"go.opentelemetry.io/collector/component"
@@ -26,6 +37,8 @@ import (
 	"go.opentelemetry.io/collector/config/configopaque"
 	"go.opentelemetry.io/collector/config/configtls"
 	"go.opentelemetry.io/collector/confmap"
+	"go.opentelemetry.io/collector/extension/extensiontest"
+	"go.opentelemetry.io/collector/service/telemetry"
 )
 
 // TestVerifC14BuiltinAll: the configuration type of EVERY factory of otelcorecol (receivers, exporters,
@@ -174,6 +187,7 @@ func TestVerifC14BuiltinAll(t *testing.T) {
 			y, _ := yaml.Marshal(m)
 			return string(y) + fmt.Sprintf("%v", m)
 		})
+		c14FmtOnModel(out, e.cfg)
 		if n > 0 {
 			out.Linef("nt")
 		}
@@ -196,7 +210,602 @@ func TestVerifC14BuiltinAll(t *testing.T) {
 	c14UseThenRender(out, len(all)+1)
 	out.Linef("nt")
 	out.Linef("end")
+	out.Linef("case %d census", len(all)+2)
+	c14Census(out, roots)
+	out.Linef("nt")
+	out.Linef("end")
+	out.Linef("case %d use-live", len(all)+3)
+	c14UseLive(out, len(all)+3)
+	out.Linef("nt")
+	out.Linef("end")
 	out.Flush()
+}
+
+// ---- (0) the REAL configuration value against the fmt model ------------------------------------------------------
+// The configuration (secrets injected, nil pointers allocated by c14Inject) is reflected into the operand-tree notation of
+// the fmt driver; every opaque leaf is refilled IN PLACE for two secret environments (same objects: printed addresses stay
+// equal) and rendered with verbs valid and invalid for pointers, as pointer and as value. `obs dep` = did the text change;
+// the driver answers with the model `pa` on the same tree (exact diff) and files a dependence by the class of the tree.
+
+var c14FmtIfaces = []reflect.Type{
+	reflect.TypeOf((*fmt.Formatter)(nil)).Elem(), reflect.TypeOf((*fmt.Stringer)(nil)).Elem(),
+	reflect.TypeOf((*error)(nil)).Elem(), reflect.TypeOf((*fmt.GoStringer)(nil)).Elem(),
+}
+
+func c14TypeHasOpaque(t reflect.Type, seen map[reflect.Type]bool) bool {
+	if t == c14OpaqueType {
+		return true
+	}
+	if seen[t] {
+		return false
+	}
+	seen[t] = true
+	switch t.Kind() {
+	case reflect.Pointer, reflect.Slice, reflect.Array:
+		return c14TypeHasOpaque(t.Elem(), seen)
+	case reflect.Map:
+		return c14TypeHasOpaque(t.Key(), seen) || c14TypeHasOpaque(t.Elem(), seen)
+	case reflect.Struct:
+		for i := 0; i < t.NumField(); i++ {
+			if c14TypeHasOpaque(t.Field(i).Type, seen) {
+				return true
+			}
+		}
+	}
+	return false
+}
+
+type c14TreeSt struct {
+	toks    []string
+	setters []func(string)
+	odd     map[string]int
+}
+
+func (st *c14TreeSt) walk(v reflect.Value, depth int) {
+	emit := func(f string, a ...any) { st.toks = append(st.toks, fmt.Sprintf(f, a...)) }
+	if !v.IsValid() || depth > 40 {
+		emit("Z")
+		return
+	}
+	t := v.Type()
+	if t == c14OpaqueType {
+		if !v.CanSet() {
+			st.odd["opaque_leaf_not_settable"]++
+			emit("N0")
+			return
+		}
+		i := len(st.setters)
+		st.setters = append(st.setters, func(s string) { v.SetString(s) })
+		emit("O%d", i)
+		return
+	}
+	// a type with its own fmt methods is printed by them: no descent (it must not hold an opaque value)
+	for _, it := range c14FmtIfaces {
+		if t.Implements(it) || (t.Kind() != reflect.Pointer && reflect.PointerTo(t).Implements(it)) {
+			if c14TypeHasOpaque(t, map[reflect.Type]bool{}) {
+				st.odd["fmt_method_type_holding_opaque"]++
+			}
+			emit("N0")
+			return
+		}
+	}
+	switch t.Kind() {
+	case reflect.Pointer:
+		if v.IsNil() {
+			emit("Z")
+			return
+		}
+		emit("P")
+		st.walk(v.Elem(), depth+1)
+	case reflect.Interface:
+		if v.IsNil() {
+			emit("Z")
+			return
+		}
+		emit("I")
+		st.walk(v.Elem(), depth+1)
+	case reflect.Slice:
+		if v.IsNil() {
+			emit("l")
+			return
+		}
+		emit("L%d", v.Len())
+		for i := 0; i < v.Len(); i++ {
+			st.walk(v.Index(i), depth+1)
+		}
+	case reflect.Array:
+		emit("A%d", v.Len())
+		for i := 0; i < v.Len(); i++ {
+			st.walk(v.Index(i), depth+1)
+		}
+	case reflect.Map:
+		if v.IsNil() {
+			emit("m")
+			return
+		}
+		keys := v.MapKeys()
+		sort.Slice(keys, func(i, j int) bool { return fmt.Sprint(keys[i]) < fmt.Sprint(keys[j]) })
+		emit("M%d", len(keys))
+		for _, k := range keys {
+			if k.Type() == c14OpaqueType {
+				st.odd["opaque_map_key"]++
+			}
+			st.walk(k, depth+1)
+			if t.Elem() == c14OpaqueType {
+				i := len(st.setters)
+				m, kk := v, k
+				st.setters = append(st.setters, func(s string) { m.SetMapIndex(kk, reflect.ValueOf(configopaque.String(s))) })
+				emit("O%d", i)
+			} else {
+				if c14TypeHasOpaque(t.Elem(), map[reflect.Type]bool{}) {
+					st.odd["opaque_below_map_value_not_refillable"]++
+				}
+				st.walk(v.MapIndex(k), depth+1)
+			}
+		}
+	case reflect.Struct:
+		emit("T%d", t.NumField())
+		for i := 0; i < t.NumField(); i++ {
+			f := t.Field(i)
+			parts := strings.Split(f.Tag.Get("mapstructure"), ",")
+			name := parts[0]
+			if name == "" {
+				name = strings.ToLower(f.Name)
+			}
+			ex, om, sq := "u", "-", "-"
+			if f.IsExported() {
+				ex = "e"
+			}
+			for _, o := range parts[1:] {
+				if o == "omitempty" {
+					om = "o"
+				}
+				if o == "squash" || o == "remain" {
+					sq = "q"
+				}
+			}
+			emit("f:%s:%s:%s:%s", vHex(name), ex, om, sq)
+			st.walk(v.Field(i), depth+1)
+		}
+	default:
+		emit("N0")
+	}
+}
+
+func c14FmtOnModel(out *vOut, cfg any) {
+	st := &c14TreeSt{odd: map[string]int{}}
+	root := reflect.ValueOf(cfg)
+	st.walk(root, 0)
+	for k, n := range st.odd {
+		out.Linef("stat tree_%s %d", k, n)
+	}
+	out.Linef("stat tree_opaque_leaves %d", len(st.setters))
+	if root.Kind() != reflect.Pointer || len(st.toks) == 0 || st.toks[0] != "P" {
+		out.Linef("stat tree_root_not_pointer 1")
+		return
+	}
+	fill := func(env string) {
+		for i, set := range st.setters {
+			set(fmt.Sprintf("%s%d-s3cr3t-builtin-all", env, i))
+		}
+	}
+	type vb struct {
+		format string
+		verb   rune
+		sharp  int
+	}
+	verbs := []vb{{"%v", 'v', 0}, {"%+v", 'v', 0}, {"%#v", 'v', 1}, {"%d", 'd', 0}, {"%x", 'x', 0}, {"%s", 's', 0}, {"%q", 'q', 0}, {"%t", 't', 0}}
+	for _, asValue := range []bool{false, true} {
+		toks := st.toks
+		if asValue {
+			toks = toks[1:]
+		}
+		for _, v := range verbs {
+			render := func(env string) (s string) {
+				defer func() {
+					if r := recover(); r != nil {
+						s = "panic"
+					}
+				}()
+				fill(env)
+				var operand any = cfg
+				if asValue {
+					operand = root.Elem().Interface()
+				}
+				return fmt.Sprintf(v.format, operand)
+			}
+			a, b := render("Qa"), render("Wb")
+			out.Linef("op fmt td=real verb=%d sharp=%d prec0=0 werr=0 : %s", v.verb, v.sharp, strings.Join(toks, " "))
+			out.Linef("obs calls=? dep=%d", vB(a != b))
+			out.Linef("stat builtin_fmt_on_model 1")
+		}
+	}
+	fill("Q")
+}
+
+// ---- (3) CENSUS: the opaque-typed fields reflection finds in the built-in configuration types against the regenerated
+// go/ast census (Gen/OpaqueCensus.lean). `op cfield` names a field; the driver answers shape / key / exported / omitempty
+// from the census (exact diff), flags a field the census does not have or whose shape is not safe (`prop census`), and at
+// `census-done` lists the exported census fields this walk never reached.
+
+func c14Shape(t reflect.Type) string {
+	if t == c14OpaqueType {
+		return "O"
+	}
+	switch t.Kind() {
+	case reflect.Pointer:
+		return "P" + c14Shape(t.Elem())
+	case reflect.Slice:
+		return "L" + c14Shape(t.Elem())
+	case reflect.Array:
+		return "A" + c14Shape(t.Elem())
+	case reflect.Map:
+		return "M" + c14Shape(t.Key()) + c14Shape(t.Elem())
+	}
+	return "x"
+}
+
+func c14Census(out *vOut, roots []reflect.Type) {
+	const mod = "go.opentelemetry.io/collector/"
+	seen := map[reflect.Type]bool{}
+	type ent struct{ op, obs string }
+	found := map[string]ent{}
+	var walk func(t reflect.Type, depth int)
+	walk = func(t reflect.Type, depth int) {
+		if depth > 16 || seen[t] {
+			return
+		}
+		seen[t] = true
+		switch t.Kind() {
+		case reflect.Pointer, reflect.Slice, reflect.Array:
+			walk(t.Elem(), depth+1)
+		case reflect.Map:
+			walk(t.Key(), depth+1)
+			walk(t.Elem(), depth+1)
+		case reflect.Struct:
+			for i := 0; i < t.NumField(); i++ {
+				f := t.Field(i)
+				if sh := c14Shape(f.Type); strings.Contains(sh, "O") {
+					if t.Name() == "" || !strings.HasPrefix(t.PkgPath(), mod) {
+						out.Linef("stat census_anonymous_or_foreign_owner 1")
+					} else {
+						parts := strings.Split(f.Tag.Get("mapstructure"), ",")
+						key, omit := parts[0], 0
+						if key == "" {
+							key = "-"
+						}
+						for _, o := range parts[1:] {
+							if o == "omitempty" {
+								omit = 1
+							}
+						}
+						name := fmt.Sprintf("pkg=%s owner=%s field=%s", strings.TrimPrefix(t.PkgPath(), mod), t.Name(), f.Name)
+						found[name] = ent{"op cfield " + name, fmt.Sprintf("obs cfield shape=%s key=%s exp=%d omit=%d", sh, key, vB(f.IsExported()), omit)}
+					}
+				}
+				walk(f.Type, depth+1)
+			}
+		}
+	}
+	for _, r := range roots {
+		walk(r, 0)
+	}
+	var names []string
+	for n := range found {
+		names = append(names, n)
+	}
+	sort.Strings(names)
+	for _, n := range names {
+		out.Linef("%s", found[n].op)
+		out.Linef("%s", found[n].obs)
+	}
+	out.Linef("op census-done")
+	out.Linef("obs unvisited -")
+	out.Linef("stat census_fields_reflected %d", len(names))
+}
+
+// ---- (4) USE, live: the places where the repository converts an opaque value to its text (Gen/OpaqueCensus.lean
+// `conversions`: request headers, response headers, PEM loaders) exercised with real traffic and a recording logger.
+// The text must arrive where it is meant to go (clause "explicit conversion returns the secret") and nowhere else:
+// no log entry of the client / server telemetry loggers (debug level) and no returned error may contain it.
+
+func c14UseLive(out *vOut, seedCase int) {
+	rnd := vRand(seedCase)
+	reqSecret := fmt.Sprintf("L1veReqS3cr3t%dZq", rnd.IntN(1000000))
+	respSecret := fmt.Sprintf("L1veRespS3cr3t%dZq", rnd.IntN(1000000))
+	hostSecret := fmt.Sprintf("l1vehosts3cr3t%d.example", rnd.IntN(1000000))
+	pemSecret := fmt.Sprintf("L1vePemS3cr3t%dZq", rnd.IntN(1000000))
+	secrets := []string{reqSecret, respSecret, hostSecret, pemSecret}
+	core, logs := observer.New(zapcore.DebugLevel)
+	tel := componenttest.NewNopTelemetrySettings()
+	tel.Logger = zap.New(core)
+	host := componenttest.NewNopHost()
+	ctx := context.Background()
+	leakIn := func(text string) string {
+		for _, s := range secrets {
+			if strings.Contains(text, s) {
+				return s[:8]
+			}
+		}
+		return ""
+	}
+	checkErr := func(subject string, err error) {
+		if err != nil {
+			if w := leakIn(err.Error()); w != "" {
+				out.Linef("viol sig=C14/use/secret-in-error/%s which=%s", subject, w)
+			}
+		}
+	}
+	func() {
+		defer func() {
+			if r := recover(); r != nil {
+				out.Linef("stat use_live_panicked 1")
+			}
+		}()
+		hs := confighttp.NewDefaultServerConfig()
+		hs.Endpoint = "localhost:0"
+		hs.TLSSetting = nil // plain HTTP
+		hs.ResponseHeaders = map[string]configopaque.String{"X-Verif-Resp": configopaque.String(respSecret)}
+		var gotReq, gotHost string
+		srv, err := hs.ToServer(ctx, host, tel, http.HandlerFunc(func(w http.ResponseWriter, r *http.Request) {
+			gotReq, gotHost = r.Header.Get("X-Verif-Req"), r.Host
+			_, _ = w.Write([]byte("ok"))
+		}))
+		checkErr("confighttp.ServerConfig.ToServer", err)
+		if err != nil {
+			out.Linef("stat use_live_server_failed 1")
+			return
+		}
+		ln, err := hs.ToListener(ctx)
+		checkErr("confighttp.ServerConfig.ToListener", err)
+		if err != nil {
+			out.Linef("stat use_live_server_failed 1")
+			return
+		}
+		go func() { _ = srv.Serve(ln) }()
+		defer srv.Close()
+		hc := confighttp.NewDefaultClientConfig()
+		hc.Endpoint = "http://" + ln.Addr().String()
+		hc.Headers = map[string]configopaque.String{"X-Verif-Req": configopaque.String(reqSecret), "Host": configopaque.String(hostSecret)}
+		cl, err := hc.ToClient(ctx, host, tel)
+		checkErr("confighttp.ClientConfig.ToClient", err)
+		if err != nil {
+			out.Linef("stat use_live_client_failed 1")
+			return
+		}
+		for i := 0; i < 2; i++ {
+			resp, err := cl.Get(hc.Endpoint + "/x")
+			checkErr("confighttp.client.Get", err)
+			if err != nil {
+				out.Linef("stat use_live_request_failed 1")
+				continue
+			}
+			bodyB, _ := io.ReadAll(resp.Body)
+			_ = resp.Body.Close()
+			if resp.StatusCode != 200 {
+				out.Linef("stat use_live_non200_%s 1", vHex(string(bodyB)))
+			}
+			out.Linef("stat use_live_status_%d 1", resp.StatusCode)
+			// the text goes where it is meant to go, unchanged
+			if gotReq != reqSecret {
+				out.Linef("viol sig=C14/use/header-not-delivered/confighttp.ClientConfig.Headers got_len=%d", len(gotReq))
+			}
+			if gotHost != hostSecret {
+				out.Linef("viol sig=C14/use/header-not-delivered/confighttp.ClientConfig.Headers.Host got_len=%d", len(gotHost))
+			}
+			if resp.Header.Get("X-Verif-Resp") != respSecret {
+				out.Linef("viol sig=C14/use/header-not-delivered/confighttp.ServerConfig.ResponseHeaders got_len=%d", len(resp.Header.Get("X-Verif-Resp")))
+			}
+			out.Linef("stat use_live_roundtrips 1")
+		}
+		// a failing request (nothing listens): the error text of the client must not carry the header values
+		hc2 := confighttp.NewDefaultClientConfig()
+		hc2.Headers = hc.Headers
+		if cl2, err := hc2.ToClient(ctx, host, tel); err == nil {
+			_, err := cl2.Get("http://127.0.0.1:1/x")
+			checkErr("confighttp.client.Get-refused", err)
+		}
+	}()
+	// gRPC: ClientConfig.Headers -> outgoing metadata of a real call (addHeadersIfAbsent), read by the server from the stream
+	func() {
+		defer func() {
+			if r := recover(); r != nil {
+				out.Linef("stat use_live_panicked 1")
+			}
+		}()
+		gs := configgrpc.NewDefaultServerConfig()
+		gs.NetAddr.Endpoint = "localhost:0"
+		var gotMD []string
+		srv, err := gs.ToServer(ctx, host, tel, configgrpc.WithGrpcServerOption(grpc.UnknownServiceHandler(func(_ any, stream grpc.ServerStream) error {
+			md, _ := metadata.FromIncomingContext(stream.Context())
+			gotMD = md.Get("x-verif-req")
+			return status.Error(codes.Unimplemented, "verif: no such method")
+		})))
+		checkErr("configgrpc.ServerConfig.ToServer", err)
+		if err != nil {
+			out.Linef("stat use_live_server_failed 1")
+			return
+		}
+		ln, err := net.Listen("tcp", "localhost:0")
+		if err != nil {
+			out.Linef("stat use_live_server_failed 1")
+			return
+		}
+		go func() { _ = srv.Serve(ln) }()
+		defer srv.Stop()
+		gc := configgrpc.NewDefaultClientConfig()
+		gc.Endpoint = ln.Addr().String()
+		gc.TLSSetting = configtls.ClientConfig{Insecure: true}
+		gc.Headers = map[string]configopaque.String{"x-verif-req": configopaque.String(reqSecret)}
+		conn, err := gc.ToClientConn(ctx, host, tel)
+		checkErr("configgrpc.ClientConfig.ToClientConn", err)
+		if err != nil {
+			out.Linef("stat use_live_client_failed 1")
+			return
+		}
+		defer conn.Close()
+		for i := 0; i < 2; i++ {
+			gotMD = nil
+			cctx, cancel := context.WithTimeout(ctx, 5*time.Second)
+			err = conn.Invoke(cctx, "/verif.Service/Method", &emptypb.Empty{}, &emptypb.Empty{})
+			cancel()
+			checkErr("configgrpc.client.Invoke", err)
+			if status.Code(err) != codes.Unimplemented {
+				out.Linef("stat use_live_grpc_call_failed 1")
+				continue
+			}
+			if len(gotMD) != 1 || gotMD[0] != reqSecret {
+				out.Linef("viol sig=C14/use/header-not-delivered/configgrpc.ClientConfig.Headers got=%d", len(gotMD))
+			}
+			out.Linef("stat use_live_grpc_calls 1")
+		}
+	}()
+	// the zPages extension logs its whole configuration (`zap.Any("config", …)`, Gen/OpaqueCensus.lean `renders`): start it
+	// with secret response headers under the recording logger
+	func() {
+		defer func() {
+			if r := recover(); r != nil {
+				out.Linef("stat use_live_panicked 1")
+			}
+		}()
+		f, err := components()
+		if err != nil {
+			return
+		}
+		zt := component.MustNewType("zpages")
+		zf := f.Extensions[zt]
+		if zf == nil {
+			out.Linef("stat use_live_no_zpages 1")
+			return
+		}
+		zc := zf.CreateDefaultConfig()
+		c14InjectMaps(reflect.ValueOf(zc), respSecret, 0)
+		if n := c14Inject(reflect.ValueOf(zc), respSecret, 0, new(bool)); n == 0 {
+			out.Linef("stat use_live_zpages_no_opaque 1")
+		}
+		// make it startable: plain HTTP on an ephemeral port
+		if ep := reflect.ValueOf(zc).Elem().FieldByName("ServerConfig"); ep.IsValid() {
+			sc := ep.Addr().Interface().(*confighttp.ServerConfig)
+			sc.Endpoint = "localhost:0"
+			sc.TLSSetting = nil
+			if a := reflect.ValueOf(sc).Elem().FieldByName("Auth"); a.IsValid() && a.CanSet() {
+				a.Set(reflect.Zero(a.Type())) // c14Inject allocated it: no authenticator extension here
+			}
+		}
+		set := extensiontest.NewNopSettings(zt)
+		set.TelemetrySettings = tel
+		ext, err := zf.Create(ctx, set, zc)
+		checkErr("zpagesextension.Create", err)
+		if err != nil {
+			return
+		}
+		err = ext.Start(ctx, host)
+		checkErr("zpagesextension.Start", err)
+		if err == nil {
+			out.Linef("stat use_live_zpages_started 1")
+		} else {
+			out.Linef("stat use_live_zpages_start_failed_%s 1", vHex(err.Error()))
+		}
+		_ = ext.Shutdown(ctx)
+	}()
+	// the collector's REAL logger (service/telemetry factory, console and json encodings, file sink): every built-in
+	// configuration with injected secrets through the field constructors and the sugared printf forms
+	func() {
+		defer func() {
+			if r := recover(); r != nil {
+				out.Linef("stat use_live_panicked 1")
+			}
+		}()
+		f, err := components()
+		if err != nil {
+			return
+		}
+		var cfgs []any
+		for _, x := range f.Receivers {
+			cfgs = append(cfgs, x.CreateDefaultConfig())
+		}
+		for _, x := range f.Exporters {
+			cfgs = append(cfgs, x.CreateDefaultConfig())
+		}
+		for _, x := range f.Extensions {
+			cfgs = append(cfgs, x.CreateDefaultConfig())
+		}
+		for _, c := range cfgs {
+			c14Inject(reflect.ValueOf(c), pemSecret, 0, new(bool))
+		}
+		for _, encoding := range []string{"console", "json"} {
+			dir, err := os.MkdirTemp("", "verif-c14-log")
+			if err != nil {
+				return
+			}
+			defer os.RemoveAll(dir)
+			path := dir + "/collector.log"
+			tf := telemetry.NewFactory()
+			tc := tf.CreateDefaultConfig().(*telemetry.Config)
+			tc.Logs.Encoding = encoding
+			tc.Logs.Level = zapcore.DebugLevel
+			tc.Logs.Sampling = nil
+			tc.Logs.OutputPaths = []string{path}
+			tc.Logs.ErrorOutputPaths = []string{path}
+			tc.Logs.InitialFields = map[string]any{"initial": cfgs[0]}
+			lg, _, err := tf.CreateLogger(ctx, telemetry.Settings{}, tc)
+			checkErr("telemetry.CreateLogger", err)
+			if err != nil {
+				out.Linef("stat use_live_logger_failed 1")
+				continue
+			}
+			for _, c := range cfgs {
+				lg.Info("config", zap.Any("config", c), zap.Reflect("reflect", c), zap.Stringer("stringer", c14AllStringer{c}),
+					zap.Error(fmt.Errorf("invalid configuration %v: %w", c, io.ErrUnexpectedEOF)), zap.Any("list", []any{c}))
+				lg.Sugar().Infof("config %v %+v %#v", c, c, c)
+				lg.Sugar().Infow("config", "config", c)
+				lg.Sugar().With("with", c).Debug("config ", c)
+			}
+			_ = lg.Sync()
+			b, _ := os.ReadFile(path)
+			if w := leakIn(string(b)); w != "" {
+				out.Linef("viol sig=C14/use/secret-in-service-log/%s which=%s", encoding, w)
+			}
+			out.Linef("stat use_live_service_log_bytes_%s %d", encoding, len(b))
+		}
+	}()
+	// PEM loaders with undecodable material that contains the secret: the error must not quote it
+	pem := configopaque.String("-----BEGIN CERTIFICATE-----\n" + pemSecret + "\n-----END CERTIFICATE-----\n")
+	for _, tc := range []struct {
+		name string
+		cfg  configtls.Config
+	}{
+		{"ca_pem", configtls.Config{CAPem: pem}},
+		{"cert_pem", configtls.Config{CertPem: pem, KeyPem: pem}},
+		{"cert_pem+key_file", configtls.Config{CertPem: pem, KeyFile: "/nonexistent/" + "k"}},
+		{"raw", configtls.Config{CAPem: configopaque.String(pemSecret)}},
+	} {
+		func() {
+			defer func() { _ = recover() }()
+			_, err := (&configtls.ClientConfig{Config: tc.cfg}).LoadTLSConfig(ctx)
+			checkErr("configtls.ClientConfig.LoadTLSConfig/"+tc.name, err)
+			_, err = (&configtls.ServerConfig{Config: tc.cfg}).LoadTLSConfig(ctx)
+			checkErr("configtls.ServerConfig.LoadTLSConfig/"+tc.name, err)
+			checkErr("configtls.Config.Validate/"+tc.name, tc.cfg.Validate())
+			out.Linef("stat use_live_pem_loads 1")
+		}()
+	}
+	n := 0
+	jsonEnc := zapcore.NewJSONEncoder(zap.NewProductionEncoderConfig())
+	consEnc := zapcore.NewConsoleEncoder(zap.NewDevelopmentEncoderConfig())
+	for _, e := range logs.All() {
+		n++
+		text := e.Message
+		for _, enc := range []zapcore.Encoder{jsonEnc, consEnc} {
+			if buf, err := enc.EncodeEntry(e.Entry, e.Context); err == nil {
+				text += " " + buf.String()
+			}
+		}
+		if w := leakIn(text); w != "" {
+			out.Linef("viol sig=C14/use/secret-in-log which=%s logger=%s msg=%s", w, e.LoggerName, vHex(e.Message))
+		}
+	}
+	out.Linef("stat use_live_log_entries %d", n)
 }
 
 // ---- (1) TYPE level: an opaque type behind an unexported field ------------------------------------------------
